@@ -18,9 +18,9 @@ ASSUMPTIONS = [
     'reference grammar = tor kvline.c KV_QUOTED + unescape_string (vlib/ref_kvline.py)',
     'value characters: printable ASCII 0x20..0x7e plus TAB, CR, LF',
 ]
-BOUNDS = {'quick': {'pairs': '1 (len<=3), 2 (len<=1 each)', 'int_values': '-1e9..1e9, both bools', 'key_chars': 'len<=2 for the one-line clause'},
-          'thorough': {'pairs': '1 (len<=4), 2 (len<=2 each)'}}
-OUTSIDE = ['values longer than 4 characters', 'non-ASCII values', 'more than 2 pairs']
+BOUNDS = {'quick': {'pairs': '1 (len<=3), 2 (len<=1 each; distinct and repeated key), 3 (one symbolic value len<=1, two literals; every arrangement of 3 key names)', 'int_values': '-1e9..1e9, both bools', 'key_chars': 'len<=2 for the one-line clause'},
+          'thorough': {'pairs': '1 (len<=4), 2 (len<=2 each), 3 (one symbolic value len<=2 at any position)'}}
+OUTSIDE = ['values longer than 4 characters', 'non-ASCII values', 'more than 3 pairs']
 
 
 def _ok_char(c):
@@ -113,14 +113,14 @@ def c12_one_pair(v: str, n: int, c0: int, c1: int) -> str:
     return _roundtrip([('Foo', v)])
 
 
-_T1 = [{'n1': a, 'n2': b, 'c0': -1} for a in range(2) for b in range(2)]
-_T2 = [{'n1': a, 'n2': b, 'c0': -1} for a in range(2) for b in range(3)] + \
-      [{'n1': 2, 'n2': b, 'c0': k} for b in range(3) for k in range(8)]
+_T1 = [{'n1': a, 'n2': b, 'c0': -1, 'same': s} for a in range(2) for b in range(2) for s in (False, True)]
+_T2 = [{'n1': a, 'n2': b, 'c0': -1, 'same': s} for a in range(2) for b in range(3) for s in (False, True)] + \
+      [{'n1': 2, 'n2': b, 'c0': k, 'same': s} for b in range(3) for k in range(8) for s in (False, True)]
 
 
 @cond(quick=dict(parts=_T1, budget=100), thorough=dict(parts=_T2, budget=600))
-def c12_two_pairs(v1: str, v2: str, n1: int, n2: int, c0: int) -> str:
-    """two pairs, both values symbolic"""
+def c12_two_pairs(v1: str, v2: str, n1: int, n2: int, c0: int, same: bool) -> str:
+    """two pairs, both values symbolic; `same`: the key is repeated (how multi-valued options are set)"""
     assume(len(v1) == n1 and len(v2) == n2)
     for c in v1:
         assume(_ok_char(c))
@@ -128,7 +128,26 @@ def c12_two_pairs(v1: str, v2: str, n1: int, n2: int, c0: int) -> str:
         assume(_ok_char(c))
     if n1 >= 1:
         assume(_in_class(v1[0], c0))
-    return _roundtrip([('Foo', v1), ('Bar', v2)])
+    return _roundtrip([('Foo', v1), ('Foo' if same else 'Bar', v2)])
+
+
+_KEYS3 = ['Foo', 'Bar', 'HiddenServicePort']
+_T3 = [{'k1': a, 'k2': b, 'k3': c} for a in range(2) for b in range(3) for c in range(3)]
+
+
+_T3P = [dict(d, pos=q) for d in _T3 for q in range(3)]
+
+
+@cond(quick=dict(parts=_T3, pins={'n': 1, 'pos': 1}, budget=100), thorough=dict(parts=_T3P, pins={'n': 2}, budget=600))
+def c12_three_pairs(v: str, k1: int, k2: int, k3: int, pos: int, n: int) -> str:
+    """three pairs over three key names in every arrangement (repeats included); the value at `pos` is
+    symbolic up to n chars, the other two are the literals 'x' and 'a b'"""
+    assume(len(v) <= n)
+    for c in v:
+        assume(_ok_char(c))
+    vals = ['x', 'a b']
+    vals.insert(pos, v)
+    return _roundtrip([(_KEYS3[k1], vals[0]), (_KEYS3[k2], vals[1]), (_KEYS3[k3], vals[2])])
 
 
 @cond(quick=dict(parts=[{'which': 0}, {'which': 1}, {'which': 2}], budget=100))
